@@ -67,7 +67,7 @@ PROPS = {
     "C11": dict(scans=lambda p, s, t: [scan.scan_immutables(p, s, t)]),
     "C16": dict(scans=_scan_suspend),
     "C17": dict(scans=_scan_suspend),
-    "C18": dict(scans=_scan_suspend),
+    "C18": dict(scans=_scan_suspend, native_budget=25),
 }
 
 
@@ -106,6 +106,14 @@ def run(pid: str, tier: str, replay: str | None, t0: float) -> int:
     extra_res = []
     if spec_tbl.get("extra"):
         extra_res = spec_tbl["extra"](prog, S, tier, seed)
+    if spec_tbl.get("native_budget"):
+        # bounded part run on every check: the real code under the contract monitors (incl. monitor-only clauses)
+        import native
+        w = native.search(pid, [], REPO, seed, budget_s=spec_tbl["native_budget"] * (1 if tier == "quick" else 8), procs=12)
+        extra_res.append({"name": "bounded:native-monitors", "ok": not w.get("found"), "bounded": w.get("scope"),
+                          "cases": w.get("scenario_runs"), "monitor_stats": w.get("monitor_stats"),
+                          "detail": "contracts (and monitor-only clauses) evaluated on the real code over enumerated scenarios",
+                          "witness": (w.get("witnesses") or [None])[0]})
     # ---- verdict ----------------------------------------------------------------------------------
     known = load_known()
     failing = [(q, r) for q, r in relevant if r["status"] != "discharged"]
